@@ -1265,46 +1265,40 @@ where
         let mut removed = false;
         let mut doc_size_decrease = 0;
         let mut full_size_decrease = 0;
-        let mut posting_empty = false;
         let mut bucket_id = 0;
 
-        {
-            if let Some(mut posting) = self.postings.get_mut(&field_value) {
-                bucket_id = posting.0;
-                // The whole-posting size is only consumed when this removal
-                // empties the posting (it then becomes the bucket's full size
-                // decrease). Measure it only in that case — when the posting
-                // holds a single doc_id — to avoid an O(n) CBOR pass on every
-                // removal from a large posting.
-                let prev_posting_size = if posting.2.len() == 1 {
-                    posting_entry_size(&field_value, &*posting)
-                } else {
-                    0
-                };
-                if posting.2.swap_remove_if(|id| id == &doc_id).is_some() {
-                    removed = true;
-                    posting.1 += 1; // increment version
-                    posting_empty = posting.2.is_empty();
-                    doc_size_decrease = cbor_serialized_size(&doc_id) + 2;
-                    full_size_decrease = prev_posting_size;
+        // The emptied posting is deleted while its entry lock is still held:
+        // released first and deleted afterwards, a reader in between was handed
+        // the key with an empty id set, which no state of the index allows.
+        let mut entry_removed = false;
+        if let dashmap::Entry::Occupied(mut entry) = self.postings.entry(field_value.clone()) {
+            let posting = entry.get_mut();
+            bucket_id = posting.0;
+            // The whole-posting size is only consumed when this removal
+            // empties the posting (it then becomes the bucket's full size
+            // decrease). Measure it only in that case — when the posting
+            // holds a single doc_id — to avoid an O(n) CBOR pass on every
+            // removal from a large posting.
+            let prev_posting_size = if posting.2.len() == 1 {
+                posting_entry_size(&field_value, &*posting)
+            } else {
+                0
+            };
+            if posting.2.swap_remove_if(|id| id == &doc_id).is_some() {
+                removed = true;
+                posting.1 += 1; // increment version
+                doc_size_decrease = cbor_serialized_size(&doc_id) + 2;
+                full_size_decrease = prev_posting_size;
+                if posting.2.is_empty() {
+                    entry.remove();
+                    entry_removed = true;
                 }
             }
         }
 
         if removed {
-            let mut entry_removed = false;
-            if posting_empty {
-                // Atomically check-and-remove: only remove if the posting is still empty.
-                // Between dropping the `get_mut` above and here, a concurrent `insert`
-                // could have added a new doc_id, making the posting non-empty again.
-                entry_removed = self
-                    .postings
-                    .remove_if(&field_value, |_, posting| posting.2.is_empty())
-                    .is_some();
-
-                if entry_removed {
-                    self.remove_btree_key_if_posting_absent(&field_value);
-                }
+            if entry_removed {
+                self.remove_btree_key_if_posting_absent(&field_value);
             }
 
             let size_decrease = if entry_removed {
@@ -1685,8 +1679,10 @@ where
             let mut posting_empty = false;
             let mut bucket_id = 0;
 
-            // Check if this field value exists
-            if let Some(mut posting) = self.postings.get_mut(&field_value) {
+            // Check if this field value exists. An emptied posting is deleted
+            // while its entry lock is held (see remove()).
+            if let dashmap::Entry::Occupied(mut entry) = self.postings.entry(field_value.clone()) {
+                let posting = entry.get_mut();
                 bucket_id = posting.0;
 
                 // Only needed when this removal empties the posting; measuring it
@@ -1702,11 +1698,14 @@ where
                 if posting.2.swap_remove_if(|id| id == &doc_id).is_some() {
                     removed = true;
                     posting.1 += 1; // Increment version
-                    posting_empty = posting.2.is_empty();
 
                     // Calculate size decrease based on whether this key is fully removed.
                     doc_size_decrease = cbor_serialized_size(&doc_id) + 2;
                     full_size_decrease = prev_posting_size;
+                    if posting.2.is_empty() {
+                        entry.remove();
+                        posting_empty = true;
+                    }
                 }
             }
 
@@ -1722,21 +1721,14 @@ where
             }
         }
 
-        // Remove empty postings from the index.
-        // Use atomic check-and-remove: a concurrent `insert` might have re-populated
-        // a posting between the first pass and here, so only remove if still empty.
+        // The emptied postings were already deleted under their entry locks.
         let mut entries_removed = FxHashSet::default();
         let mut bucket_updates: FxHashMap<u32, (usize, FxHashSet<FV>)> = FxHashMap::default();
         for (field_value, bucket_id, doc_size_decrease, full_size_decrease, posting_empty) in
             pending_removals
         {
             let mut entry_removed = false;
-            if posting_empty
-                && self
-                    .postings
-                    .remove_if(&field_value, |_, posting| posting.2.is_empty())
-                    .is_some()
-            {
+            if posting_empty {
                 entry_removed = true;
                 entries_removed.insert(field_value.clone());
             }
@@ -2025,10 +2017,16 @@ where
                 walk!(keys.iter())
             }
             RangeQuery::Not(query) => {
-                // 先收集要排除的 key，再遍历全集差集
-                let exclude: FxHashSet<FV> = self.range_keys(*query).into_iter().collect();
+                // Decided per key, under the one read lock the walk holds (as
+                // the `And` path does): with the exclusion set built under an
+                // earlier lock, a key inserted in between was walked but not
+                // excluded, and `Not(q)` returned a key matching `q`.
                 let btree = self.btree.read();
-                walk!(btree.iter().filter(|k| !exclude.contains(*k)))
+                walk!(
+                    btree
+                        .iter()
+                        .filter(|k| !Self::range_key_matches_query(k, &query))
+                )
             }
         }
 
@@ -2169,12 +2167,12 @@ where
                 results.extend(merged);
             }
             RangeQuery::Not(query) => {
-                let exclude: FxHashSet<FV> = self.range_keys(*query).into_iter().collect();
+                // Per key under one read lock; see `range_query_inner`.
                 results.extend(
                     self.btree
                         .read()
                         .iter()
-                        .filter(|k| !exclude.contains(k))
+                        .filter(|k| !Self::range_key_matches_query(k, &query))
                         .cloned(),
                 );
             }
